@@ -170,6 +170,53 @@ def check_jax(inst, env):
     return out
 
 
+def replay_modes(env, hist):
+    """one behaviour of SampleModes.tla stepped through the real OptimizeVI.draw_samples with recording stand-ins for the two samplers
+    (constructor arguments of OptimizeVI); after every step the keys and the samples are projected and compared"""
+    import importlib
+    jax, jnp, jft = env
+    okl = importlib.import_module("nifty.re.optimize_kl")
+    ids = {}
+
+    def kid(k):
+        b = np.asarray(jax.random.key_data(k) if hasattr(jax.random, "key_data") and not isinstance(k, np.ndarray) else k).tobytes()
+        if b not in ids:
+            ids[b] = len(ids) + 1
+        return ids[b]
+
+    def draw_lin(pos, key, *, point_estimates=(), **kw):
+        # the "sample" carries the identity of its key: value = key id, number of non-linear updates = 0
+        return jft.Vector({"x": jnp.asarray([float(kid(key)), 0.])}), 0
+
+    def nl_update(pos, residual_sample, metric_sample_key, metric_sample_sign, *, point_estimates=(), **kw):
+        r = residual_sample.tree["x"]
+        # the update must be driven with the key of its own sample and the sign of its mirror position
+        ok = abs(abs(float(r[0])) - kid(metric_sample_key)) < 1e-9 and np.sign(float(r[0])) == np.sign(float(metric_sample_sign))
+        return jft.Vector({"x": jnp.asarray([float(r[0]), float(abs(r[1])) + 1. if ok else -99.]) * jnp.asarray([1., np.sign(float(r[0])) if ok else 1.])}), 0
+    lh = jft.Gaussian(jnp.zeros(2)).amend(lambda x: x["x"], domain=jft.Vector({"x": jft.ShapeWithDtype((2,))}))
+    ovi = okl.OptimizeVI(lh, len(hist), jit=False, residual_map="lmap", _draw_linear_residual=draw_lin, _nonlinearly_update_residual=nl_update)
+    samples = jft.Samples(pos=jft.Vector({"x": jnp.zeros(2)}), samples=None, keys=None)
+    base = jax.random.PRNGKey(99)
+    for i, h in enumerate(hist):
+        try:
+            with jax.disable_jit():
+                samples, _ = ovi.draw_samples(samples, key=jax.random.fold_in(base, i), sample_mode=h["mode"], n_samples=h["n"], point_estimates=(),
+                                              draw_linear_kwargs={}, nonlinearly_update_kwargs={})
+        except Exception as e:
+            return "step %d (%s, n=%d): draw_samples raised %s: %s" % (i + 1, h["mode"], h["n"], type(e).__name__, str(e)[:120])
+        keys = [] if samples.keys is None else [kid(k) for k in samples.keys]
+        if samples._samples is None:
+            smp = []
+        else:
+            arr = np.asarray(samples._samples.tree["x"])
+            smp = [[int(round(abs(a[0]))), 1 if a[0] > 0 else -1, int(round(abs(a[1])))] for a in arr]
+        want_keys = list(h["keys"])
+        # key ids: the specification numbers fresh keys consecutively; the real keys are numbered in the order they are first seen
+        if keys != want_keys or smp != [list(x) for x in h["smp"]]:
+            return "step %d (%s, n=%d, effective %s): keys %s samples %s, the mode logic gives keys %s samples %s" % (i + 1, h["mode"], h["n"], h["eff"], keys, smp, want_keys, [list(x) for x in h["smp"]])
+    return None
+
+
 def run(ctx):
     from nifty.cl import random as Rmod
     from props.C13 import Noise
@@ -182,7 +229,30 @@ def run(ctx):
             ctx.case(json.dumps([inst["R"], inst["ninv"], inst["d"]]))
             for msg in check_classic(inst, Rmod, Noise) + check_jax(inst, env):
                 ctx.violation(dict(kind="samples", impl=msg.split(" ")[0], what=msg.split(": ")[1][:30]), "R=%s ninv=%s: %s" % (inst["R"], [lg.rv(x) for x in inst["ninv"]], msg), replay=dict(model=inst))
-    ctx.traces += len(models)
+    # ---- the sampling-mode state machine of the JAX driver --------------------------------------------------------------------
+    mcfg = "CONSTANTS MaxN = %d\nMaxIter = %d\nSPECIFICATION Spec\nINVARIANT Aligned\nINVARIANT DistinctKeys\nPROPERTY ResampleFresh\nPROPERTY SampleReuses\nPROPERTY MapNoop\nPROPERTY ChangedNResamples\nVIEW View\nCHECK_DEADLOCK FALSE\n"
+    ctx.tlc("SampleModes", mcfg % (2, 4) if ctx.quick else mcfg % (3, 5), label="sample modes, all schedules")
+    for inv in ("NeverUpdatesTwice", "NeverReuses"):
+        r = ctx.tlc("SampleModes", "CONSTANTS MaxN = 2\nMaxIter = 3\nSPECIFICATION Spec\nINVARIANT %s\nCHECK_DEADLOCK FALSE\n" % inv, label="witness " + inv, expect_ok=False)
+        if r.violated != inv:
+            raise tlcmod.MachineryError("vacuity witness %s not refuted" % inv)
+    e = ctx.tlc("SampleModes", "CONSTANTS MaxN = 2\nMaxIter = 3\nSPECIFICATION Spec\nINVARIANT Emit\nCHECK_DEADLOCK FALSE\n", label="emit all schedules of 3 iterations", workers=1)
+    hists = [d["hist"] for d in e.emitted]
+    if not ctx.quick:
+        e = ctx.tlc("SampleModes", "CONSTANTS MaxN = 3\nMaxIter = 4\nSPECIFICATION Spec\nINVARIANT Emit\nCHECK_DEADLOCK FALSE\n", label="emit all schedules of 4 iterations", workers=1, timeout=2500)
+        hists += [d["hist"] for d in e.emitted][::5]
+    if len(hists) < 500:
+        raise tlcmod.MachineryError("too few sampling schedules: %d" % len(hists))
+    if ctx.quick:
+        hists = hists[::4]
+    with quiet():
+        for h in hists:
+            ctx.case(("modes", json.dumps([(x["mode"], x["n"]) for x in h])))
+            msg = replay_modes(env, h)
+            if msg:
+                ctx.violation(dict(kind="sample-modes", eff=msg.split("effective ")[1].split(")")[0] if "effective " in msg else ""), msg, replay=dict(schedule=h))
+    ctx.notes["sampling_schedules"] = len(hists)
+    ctx.traces += len(models) + len(hists)
     ctx.sample(dict(model={k: models[1][k] for k in ("R", "ninv", "D")}))
     ctx.assume("exact covariance by unit excitations: the samplers are linear in their Gaussian excitations for a linear model; covariances compared to 1e-9 (CG run to 1e-13)",
                "classic excitations are injected through nifty.cl.random.Random.normal, JAX excitations through nifty.re.evi.random_like")
@@ -191,6 +261,16 @@ def run(ctx):
 def replay(ctx, doc):
     from nifty.cl import random as Rmod
     from props.C13 import Noise
+    if "schedule" in doc["case"]:
+        with quiet():
+            m = replay_modes(lg.jax_env(), doc["case"]["schedule"])
+        if m:
+            ctx.violation(doc.get("key", dict(kind="sample-modes")), m, replay=doc["case"])
+        ctx.case("replay")
+        ctx.case("replay2")
+        ctx.sample(dict(replayed="schedule"))
+        ctx.states = ctx.transitions = 1
+        return
     inst = doc["case"]["model"]
     with quiet():
         msgs = check_classic(inst, Rmod, Noise) + check_jax(inst, lg.jax_env())
